@@ -318,3 +318,137 @@ Example C04_remove_with_clones_nonvacuous :
                map rid (forest_of (nth 0 (trees w') (TS [] [] [] false None))) = [4] /\
                map rid (prune [1; 3] (forest_of (nth 0 (trees w3) (TS [] [] [] false None)))) = [4].
 Proof. eexists _, _. repeat split; vm_compute; reflexivity. Qed.
+
+(* ====================================================================================== *)
+(* The remaining mutators (theories/Mut/EffectsMore.v).                                     *)
+From NT Require Import WF EffectsMore.
+From NT Require Filter FilterProofs.
+
+(* ---- remove(keep_children=True) / remove(keep_children=True, with_clones=True): the whole victim
+        group (the node, resp. its clone group as listed by the index) is CONTRACTED - every victim is
+        replaced by its children, in place and in order ([splice V], a structural recursion) - after the
+        up-front validation on the fully contracted sibling lists; the surviving nodes keep payload and
+        pre-order; nothing else changes.  (With WF, C01 gives registry and index of the result.) ---- *)
+Theorem C04_remove_keep_clones : forall w ti n wc r w',
+  step w (ORemove ti n true wc) = (Ok r, w') ->
+  exists t t' d,
+    get_tree w ti = Some t /\ get_tree w' ti = Some t' /\ did_of n (forest_of t) = Some d /\ r = [] /\
+    next w' = next w /\ (forall tj, tj <> ti -> get_tree w' tj = get_tree w tj) /\
+    let V := if wc then filter (fun c => negb (Nat.eqb c n)) (idx_get d (idx t)) ++ [n] else [n] in
+    existsb (keep_collides_all t V) V = false /\
+    (NoDup (ids (forest_of t)) ->
+     forest_of t' = splice V (forest_of t) /\
+     map nd (pre_f (forest_of t')) = filter (outside V) (map nd (pre_f (forest_of t)))).
+Proof. exact remove_keep_clones_effect. Qed.
+Print Assumptions C04_remove_keep_clones.
+
+(* a refused remove() - whatever its flags - changes nothing at all *)
+Theorem C04_remove_refused_unchanged : forall w ti n keep wc e w',
+  step w (ORemove ti n keep wc) = (Err e, w') -> w' = w.
+Proof. exact remove_refused_unchanged. Qed.
+Print Assumptions C04_remove_refused_unchanged.
+
+(* ---- in-place filter: the child list below the start node becomes [F] of it - the filter
+        specification of Forest/Filter.v (C08), instantiated with the verdicts of the predicate -;
+        the rest of the tree, the allocator and all other trees are untouched ---- *)
+Theorem C04_filter : forall w ti n vd r w', WFw w ->
+  step w (OFilter ti n vd) = (Ok r, w') ->
+  exists t t' pq ch,
+    get_tree w ti = Some t /\ get_tree w' ti = Some t' /\
+    parent_path n (forest_of t) = Some pq /\ get_ch pq (forest_of t) = Some ch /\
+    forest_of t' = upd_ch pq (fun _ => Filter.F (vof vd) ch) (forest_of t) /\
+    r = [] /\ next w' = next w /\ (forall tj, tj <> ti -> get_tree w' tj = get_tree w tj).
+Proof. exact filter_effect. Qed.
+Print Assumptions C04_filter.
+
+(* hence: the kept nodes keep payload, parent and relative order (an embedding), in particular their
+   identities are a sub-sequence of the old pre-order *)
+Theorem C04_filter_keeps_order : forall vd ch,
+  Filter.emb (Filter.F (vof vd) ch) ch /\ Filter.sublist (ids (Filter.F (vof vd) ch)) (ids ch).
+Proof. intros vd ch. split; [apply FilterProofs.F_emb|apply FilterProofs.F_order]. Qed.
+Print Assumptions C04_filter_keeps_order.
+
+(* whatever the outcome (the predicate may raise an ordinary exception: ECrash, the removals made so far
+   stay): only the branch below the start node changes, and what is left of it embeds into what was there *)
+Theorem C04_filter_frame : forall w ti n vd r w', WFw w ->
+  step w (OFilter ti n vd) = (r, w') -> forall t, get_tree w ti = Some t ->
+  exists t', get_tree w' ti = Some t' /\
+    match parent_path n (forest_of t) with
+    | Some pq => match get_ch pq (forest_of t) with
+                 | Some ch => exists ch', forest_of t' = upd_ch pq (fun _ => ch') (forest_of t) /\ Filter.emb ch' ch
+                 | None => t' = t
+                 end
+    | None => t' = t
+    end /\ next w' = next w /\ (forall tj, tj <> ti -> get_tree w' tj = get_tree w tj).
+Proof. exact filter_frame. Qed.
+Print Assumptions C04_filter_frame.
+
+(* ---- Node.from_dict (on a childless node): exactly the branches the items describe - one node per
+        item, fresh identities in pre-order of the items ([builts]), payload from the item - become the
+        child list of the node; every other row of the tree is unchanged, in unchanged order ---- *)
+Theorem C04_from_dict : forall w ti p items r w', WFw w ->
+  step w (OFromDict ti p items) = (Ok r, w') ->
+  exists t t' pq kids,
+    get_tree w ti = Some t /\ get_tree w' ti = Some t' /\
+    parent_path p (forest_of t) = Some pq /\ get_ch pq (forest_of t) = Some [] /\
+    builts (calc t) (typed t) (next w) items kids (next w') /\
+    ids kids = seq (next w) (next w' - next w) /\
+    forest_of t' = upd_ch pq (fun _ => kids) (forest_of t) /\
+    repl_rows [] (rows p kids) (rows 0 (forest_of t)) (rows 0 (forest_of t')) /\
+    (forall tj, tj <> ti -> get_tree w' tj = get_tree w tj).
+Proof. exact from_dict_effect. Qed.
+Print Assumptions C04_from_dict.
+
+(* a refused from_dict (fix D48: every level removes what it had built) leaves every tree exactly as it was *)
+Theorem C04_from_dict_refused : forall w ti p items e w',
+  step w (OFromDict ti p items) = (Err e, w') -> trees w' = trees w.
+Proof. exact from_dict_refused. Qed.
+Print Assumptions C04_from_dict_refused.
+
+(* ---- Tree.from_dict: a new plain tree holding the branches the items describe ---- *)
+Theorem C04_tree_from_dict : forall w items r w', WFw w ->
+  step w (OTreeFromDict items) = (Ok r, w') ->
+  r = [length (trees w)] /\
+  exists t' kids,
+    get_tree w' (length (trees w)) = Some t' /\ forest_of t' = kids /\ typed t' = false /\ calc t' = None /\
+    builts None false (next w) items kids (next w') /\ ids kids = seq (next w) (next w' - next w) /\
+    (forall tj, tj < length (trees w) -> get_tree w' tj = get_tree w tj).
+Proof. exact tree_from_dict_effect. Qed.
+Print Assumptions C04_tree_from_dict.
+
+Theorem C04_tree_from_dict_refused : forall w items e w',
+  step w (OTreeFromDict items) = (Err e, w') -> trees w' = trees w.
+Proof. exact tree_from_dict_refused. Qed.
+Print Assumptions C04_tree_from_dict_refused.
+
+(* non-vacuity *)
+Definition dC : dat := D 2 2 13 true [99%Z].
+(* a(1) > b(2) > a'(3) > c(4) *)
+Definition w4 : world := run [ONewTree false None; OAdd 0 0 dA None None BNone; OAdd 0 1 dB None None BNone;
+                              OAdd 0 2 dA None None BNone; OAdd 0 3 dC None None BNone] empty_world.
+Example C04_remove_keep_clones_nonvacuous :
+  exists r w', step w4 (ORemove 0 3 true true) = (Ok r, w') /\
+    forest_of (nth 0 (trees w') (TS [] [] [] false None)) = splice [1; 3] (forest_of (nth 0 (trees w4) (TS [] [] [] false None))) /\
+    map rid (pre_f (forest_of (nth 0 (trees w') (TS [] [] [] false None)))) = [2; 4] /\
+    (* in w3 the contraction would make the clones b(2) and b''(4) siblings: refused, nothing changes *)
+    step w3 (ORemove 0 3 true true) = (Err EUnique, w3).
+Proof. eexists _, _. repeat split; vm_compute; reflexivity. Qed.
+Example C04_filter_nonvacuous :
+  let vd := [(1, VFalse); (2, VFalse); (3, VTrue); (4, VSkip)] in
+  exists r w', step w4 (OFilter 0 0 vd) = (Ok r, w') /\
+    map rid (pre_f (forest_of (nth 0 (trees w') (TS [] [] [] false None)))) = [1; 2; 3] /\
+    forest_of (nth 0 (trees w') (TS [] [] [] false None)) = Filter.F (vof vd) (forest_of (nth 0 (trees w4) (TS [] [] [] false None))).
+Proof. eexists _, _. repeat split; vm_compute; reflexivity. Qed.
+Definition c04_items : list ditem := [DI dA None [DI dB None []]; DI dB None []].
+Example C04_from_dict_nonvacuous :
+  exists r w', step w4 (OFromDict 0 4 c04_items) = (Ok r, w') /\
+    map rid (pre_f (forest_of (nth 0 (trees w') (TS [] [] [] false None)))) = [1; 2; 3; 4; 5; 6; 7].
+Proof. eexists _, _. split; vm_compute; reflexivity. Qed.
+Example C04_from_dict_refused_nonvacuous :
+  exists w'', step w4 (OFromDict 0 4 [DI dA None [DI dB None []; DI dB None []]]) = (Err EUnique, w'') /\
+              trees w'' = trees w4 /\ next w'' = 8.
+Proof. eexists. split; [vm_compute; reflexivity|]. split; vm_compute; reflexivity. Qed.
+Example C04_tree_from_dict_nonvacuous :
+  exists r w', step w4 (OTreeFromDict c04_items) = (Ok r, w') /\ r = [1] /\
+               map rid (pre_f (forest_of (nth 1 (trees w') (TS [] [] [] false None)))) = [5; 6; 7].
+Proof. eexists _, _. split; [vm_compute; reflexivity|]. split; vm_compute; reflexivity. Qed.
